@@ -175,8 +175,9 @@ def rand_op(rng):
 
 def random_cases(rng, n, safe_bias=0.7):
     out = []
-    for _ in range(n):
-        init = rand_init(rng)
+    pool = [rand_init(rng) for _ in range(max(4, min(24, n // 150)))]   # few distinct initial file systems: the
+    for _ in range(n):                                                   # child builds each template only once
+        init = rng.choice(pool)
         ln = rng.randrange(4, 13)
         ops = [f'L{rng.randrange(6)}{rng.choice([1, 1, 0])}']
         # most random histories avoid the open finding (dtype change followed by a save onto the source) so that
@@ -303,6 +304,7 @@ def _ensure(keys):
         return
     # run every registered, not yet run case too: batching is what makes child processes affordable
     pend = [k for k in _REG if k not in _RES]
+    pend.sort(key=lambda k: (k[2], k[0]))      # same initial file system together: templates are reused
     jobs = [(k, _REG[k].data) for k in pend]
     chunks = [jobs[i:i + CHUNK] for i in range(0, len(jobs), CHUNK)]
     nw = max(1, min(int(os.environ.get('C09_WORKERS', '0') or 0) or 10, os.cpu_count() or 2, len(chunks)))
